@@ -214,6 +214,8 @@ def build_delivery(rnd, ffr=False, small=True, with_history=True):
     img = ts004.make_image(rnd, n, sz)
     seq, mode, lost = delivery_plan(rnd, n, cap)
     s.meta.update(dict(n=n, sz=sz, cap=cap, img=img, seq=seq, mode=mode, lost=sorted(lost), ffr=ffr))
+    s.meta["fb_before"] = s.add("fb")
+    s.meta["fbvalid_before"] = s.add("validfb")
     s.meta["start_op"] = s.add("start %d %d" % (sz, n))
     s.meta["seg_ops"] = [s.add(seg_op(img, n, sz, i, ffr)) for i in seq]
     s.meta["done_op"] = s.add("done")
@@ -221,6 +223,7 @@ def build_delivery(rnd, ffr=False, small=True, with_history=True):
     s.meta["valid_op"] = s.add("validbl")
     s.meta["dump_op"] = s.add("dumpbl %x %d" % (DRO, n * sz))
     s.meta["fb_op"] = s.add("fb")
+    s.meta["fbvalid_after"] = s.add("validfb")
     s.meta["hdrs_op"] = s.add("hdrs")
     return s
 
@@ -314,3 +317,21 @@ def nontrivial_delivery(s, out):
     if s.meta["lost"]: tags.append("loss")
     if any("W@" in o and int(o[2:].split(":")[0], 16) % s.slot < HDR + 16 * 1024 and int(o[2:].split(":")[0], 16) // s.slot != 0 for i in s.meta["seg_ops"] for o in out[i][1][:1]): pass
     return tags
+
+
+def oracle_fallback_survives(s, out):
+    """C05 on histories with real data: the fallback image is the same valid image before and after a session"""
+    me = s.meta
+    b, a = out[me["fb_before"]][0], out[me["fb_op"]][0]
+    msgs = []
+    if b.startswith("some"):
+        if a != b:
+            msgs.append("fallback_firmware was %s before the update and %s after it" % (b, a))
+        if out[me["fbvalid_before"]][0] != "ok" or out[me["fbvalid_after"]][0] != "ok":
+            msgs.append("the fallback image validates %s before and %s after the update" % (out[me["fbvalid_before"]][0], out[me["fbvalid_after"]][0]))
+        fbi = int(b[5:])
+        for i in [me["start_op"]] + me["seg_ops"] + [me["done_op"]]:
+            for k, addr, ln, d, z in expand_log(out[i][1], s.blk):
+                if addr // s.slot == fbi or (addr + ln - 1) // s.slot == fbi:
+                    msgs.append("flash operation at %#x during the update touches the fallback slot %d" % (addr, fbi)); break
+    return msgs
